@@ -301,6 +301,8 @@ VERBATIM_WORDS: list[tuple[str, list[str]]] = [
     ("quoted-tag", ['"{% qza %}"...']),
     ("apos-after-code", ["`qza`'s", "qzb"]),
     ("possessives", ["qzas'", "qzb's", "qzc'd"]),
+    ("code-span-3", ["```qza``qzb```"]),
+    ("code-span-2-inner", ["``qza`qzb``"]),
     ("link-dest-angle", ["[qza](<a b> 'T')"]),
     ("link-dest-angle-paren", ["[qza](<a(b> \"T\")"]),
     ("image-dest-angle", ["![qza](<my img.png>)"]),
